@@ -179,6 +179,9 @@ def verify_function(chk, fname, entry, post=None, timeout_ms=10000, max_paths=40
         n0 = insts[0]['name']
         if known and n0 in known and all(i.get('residual') == 'unsat' for i in bad_i):
             chk.obligation(n, fname, 'z3', report.KNOWN, tsum, detail=detail, finding=known[n0][0])
+            chk.obligation(n + '.residual', fname, 'z3', report.PROVED, 0.0,
+                           detail={'clause': 'the same obligation for every input outside the recorded finding\'s witness class',
+                                   'instances': len(bad_i)})
             continue
         sats = [i for i in bad_i if i['verdict'] == 'sat' and i.get('residual') != 'unsat']
         if n0 in refuted:
